@@ -22,14 +22,16 @@ pub fn scenarios() -> Vec<Scenario> {
         name: "c08-stream",
         gen,
         run,
-        quick_runs: 60_000,
+        quick_runs: 400_000,
         weight: 1,
         rule: "case = (sequence of 1..=8 (quick) / 1..=32 (thorough) valid packets, delivery schedule); non-trivial when the sequence has >= 2 packets; distinct by case hash",
     }]
 }
 
 pub fn gen(rng: &mut Rng, tier: Tier, _idx: u64) -> Case {
-    let sw = gen::swarm(rng, tier == Tier::Thorough);
+    let mut sw = gen::swarm(rng, tier == Tier::Thorough);
+    // multi-megabyte frames are C01/C02's business; here they would only slow the accumulate loop
+    sw.max_frame = 16_384 + 16;
     let mut c = Case::new("C08", "c08-stream", sw.fam, Front::P);
     let max = if tier == Tier::Thorough { 32 } else { 8 };
     let n = if rng.chance(1, 4) { rng.urange(1, max) } else { rng.urange(1, 4) };
@@ -37,6 +39,7 @@ pub fn gen(rng: &mut Rng, tier: Tier, _idx: u64) -> Case {
     for _ in 0..n {
         let mut a = gen::gen_packet(rng, &sw);
         maybe_retarget(rng, &sw, &mut a, 100);
+        gen::maybe_retarget_props(rng, sw.fam, &mut a, 40);
         total += crate::refcodec::ref_body_len(&a, sw.fam) + 5;
         c.packets.push(a);
     }
@@ -62,10 +65,6 @@ fn run_g<C: Codec>(c: &Case, trace: bool) -> RunOut {
     for a in &c.packets {
         match lib_encode::<C>(a) {
             Ok((p, e)) => {
-                // only packets that survive a plain round trip are sequenced (C01 reports the rest)
-                if fe_block::<C>(&e).pkt() != Some(&p) {
-                    continue;
-                }
                 sent.push((p, e.len(), a.type_name()));
                 stream.extend_from_slice(&e);
             }
@@ -171,7 +170,8 @@ fn run_g<C: Codec>(c: &Case, trace: bool) -> RunOut {
                         break if c.read_tail == 0 { usize::MAX } else { c.read_tail };
                     }
                 };
-                let n = n.max(1).min(total - delivered);
+                // at most ~512 deliveries per stream, so the accumulate loop stays linear-ish
+                let n = n.max(1).max(total / 512).min(total - delivered);
                 buf.extend_from_slice(&stream[delivered..delivered + n]);
                 delivered += n;
             }
